@@ -80,17 +80,30 @@ mod native {
         let lens = [0usize, 1, 3, 4, 5, 9];
         let (tx, _rx) = mpsc::channel(4);
         let mut layouts = 0;
+        let mut configs: Vec<(usize, Vec<usize>)> = vec![];
         for pl in [1usize, 4, 5] {
             for n in 1..=(if deep { 4usize } else { 3 }) {
                 for code in 0..lens.len().pow(n as u32) {
                     let ls: Vec<usize> = (0..n).map(|i| lens[code / lens.len().pow(i as u32) % lens.len()]).collect();
+                    if ls.iter().sum::<usize>() == 0 { continue; }
+                    configs.push((pl, ls));
+                }
+            }
+        }
+        // files that start deep inside a piece (beyond the 8 KiB a BufReader holds) and run on into the next pieces
+        configs.push((16384, vec![10000, 20000, 0, 5000]));
+        configs.push((16384, vec![8193, 16384, 1]));
+        configs.push((32768, vec![9000, 40000, 100]));
+        {
+            {
+                for (pl, ls) in configs {
+                    let n = ls.len();
                     let total: usize = ls.iter().sum();
-                    if total == 0 { continue; }
                     for (single, flat) in [(false, false), (true, false), (false, true)] {
                         if single && n != 1 { continue; }
                         let base = fresh_dir("c03");
                         // `flat`: every byte equal, so all full pieces are byte-identical and share ONE piece file (named by its hash)
-                        let content: Vec<u8> = (0..total).map(|i| if flat { 7u8 } else { (i * 7 + 3) as u8 }).collect();
+                        let content: Vec<u8> = (0..total).map(|i| if flat { 7u8 } else { ((i * 7 + 3) % 251) as u8 }).collect();
                         // listed in REVERSE path order (z2, z1, z0): the offsets follow the listing, not the names
                         let files: Vec<(String, usize)> = ls.iter().enumerate().map(|(i, l)| (format!("z{}.bin", n - 1 - i), *l)).collect();
                         let m = Metainfo::from_bencode(&torrent_doc("t", pl, &content, &files, single)).expect("test torrent");
@@ -107,7 +120,7 @@ mod native {
                         for (i, (p, l)) in files.iter().enumerate() {
                             let path = if n > 1 { std::path::PathBuf::from("t").join(p) } else if single { std::path::PathBuf::from("t") } else { std::path::PathBuf::from(p) };
                             let got = std::fs::read(&path).unwrap_or_else(|e| panic!("file {} ({:?}) of layout pl={} lens={:?} single={} was not written: {}", i, path, pl, ls, single, e));
-                            assert!(got == &content[off..off + l], "file {} of layout pl={} lens={:?} single={}: got {:?}, want {:?}", i, pl, ls, single, got, &content[off..off + l]);
+                            assert!(got == &content[off..off + l], "file {} of layout pl={} lens={:?} single={}: got {} bytes {:?}.., want {} bytes {:?}..", i, pl, ls, single, got.len(), &got[..got.len().min(12)], l, &content[off..(off + l).min(off + 12)]);
                             off += l;
                         }
                         std::env::set_current_dir("/").unwrap();
@@ -118,6 +131,31 @@ mod native {
             }
         }
         assert!(layouts > 1400, "only {} layouts", layouts);
+    }
+
+    // C03 / C01 / C09, BOUNDED: the piece store is keyed by utils::hash_to_string (ASSUMED in the units as an uninterpreted `hex_of`;
+    // iterator + format!: outside the Verus subset).  What storing, serving and reassembling rely on is that two different piece
+    // hashes never share a file name: checked on 5 120 hashes differing from a base hash in one byte (every position, every value),
+    // on hashes differing only in their LAST bytes, and on 20 000 pseudo-random ones
+    #[test]
+    fn native_piece_file_names_are_distinct() {
+        let mut seen: std::collections::HashMap<String, [u8; 20]> = std::collections::HashMap::new();
+        let mut check = |h: [u8; 20]| {
+            let name = crate::utils::hash_to_string(&h);
+            if let Some(other) = seen.get(&name) {
+                assert!(*other == h, "pieces with the different hashes {:?} and {:?} share the store name {:?}", other, h, name);
+            }
+            seen.insert(name, h);
+        };
+        for pos in 0..20 { for b in 0..=255u8 { let mut h = [0x5Au8; 20]; h[pos] = b; check(h); } }
+        for tail in 1..=19usize { let mut h = [0u8; 20]; for k in tail..20 { h[k] = 0xFF; } check(h); }
+        let mut x: u64 = 0x9E3779B97F4A7C15;
+        for _ in 0..20_000 {
+            let mut h = [0u8; 20];
+            for k in 0..20 { x = x.wrapping_mul(6364136223846793005).wrapping_add(1442695040888963407); h[k] = (x >> 33) as u8; }
+            check(h);
+        }
+        assert!(seen.len() > 24_000);
     }
 
     // C04, BOUNDED: hostile names / paths (parent components, absolute paths, backslashes, an existing parent directory): whatever
